@@ -212,6 +212,21 @@ pub fn liars() -> Tree {
     Tree::C { ci: "none".into(), kids }
 }
 
+/// NOT a game of the documented class: the player `pl` forgets the OWN ACTION taken at "x" (the two "z" nodes share an
+/// infoset although they follow different actions of the same earlier infoset); `deep` puts a move of the other
+/// player in between.  Every other rule holds
+pub fn forgot_action(pl: u8, deep: bool) -> Tree {
+    let z = |x: i64| Tree::P { pl, info: "z".into(), kids: vec![PKid { a: "c".into(), t: term(x) }, PKid { a: "d".into(), t: term(-x) }] };
+    let below = |x: i64| {
+        if deep {
+            Tree::P { pl: 3 - pl, info: "m".into(), kids: vec![PKid { a: "l".into(), t: z(x) }, PKid { a: "r".into(), t: term(0) }] }
+        } else {
+            z(x)
+        }
+    };
+    Tree::P { pl, info: "x".into(), kids: vec![PKid { a: "a".into(), t: below(1) }, PKid { a: "b".into(), t: below(2) }] }
+}
+
 pub fn all() -> Vec<(String, Tree)> {
     let mut v = vec![
         ("pennies".to_string(), pennies()),
